@@ -33,10 +33,18 @@ def attribute_sig(sig):
     return 'C10'
   if rpc in ('SuggestTrials', 'GetOperation'):
     if sig.get('env_raise') or (sig.get('delivered') is not None and sig.get('n') is not None and sig['delivered'] != sig['n']):
-      return 'C06' if (sig.get('env_raise') or sig['delivered'] < sig['n']) else 'C02'
+      # the algorithm raised or delivered too few: C06.  Too many: C06 when the call itself failed (the failure of the
+      # algorithm to deliver exactly n must not surface as an error / wedge the study), C02 when the surplus is mishandled.
+      if sig.get('env_raise') or sig['delivered'] < sig['n'] or sig.get('got', 'None') != 'None':
+        return 'C06'
+      return 'C02'
     return 'C02'
   if rpc == 'CheckEarlyStopping':
-    return 'C06' if sig.get('env_raise') else 'C01'
+    # what is stored about early-stopping operations and what a check answers is C06's; which error class an illegal
+    # check gets is C01's
+    if sig.get('env_raise') or sig.get('what') in ('state', 'val') or sig.get('clause') in ('A_state', 'A_resp'):
+      return 'C06'
+    return 'C01'
   if rpc == 'UpdateMetadata':
     return 'C10'
   if rpc == 'ListOptimalTrials':
@@ -44,12 +52,12 @@ def attribute_sig(sig):
   return 'C01'
 
 
-def attribute_verdict(clause, call):
+def attribute_verdict(clause, call, got='None'):
   if clause.startswith('C'):
     return clause[:3]
   if clause == 'A_state_meta':
     return 'C10'        # the observed state differs from the model's only in metadata cells
-  sig = {'rpc': call['rpc']}
+  sig = {'rpc': call['rpc'], 'got': got, 'clause': clause}
   sig.update(replay_mod.env_tags(call))
   return attribute_sig(sig)
 
@@ -162,7 +170,7 @@ def run_rounds(ctx, own, rounds, walks=None, report_all=False):
           if clause == 'ok':
             continue
           ev = traces[i][pos - 1]
-          prop = attribute_verdict(clause, ev['call'])
+          prop = attribute_verdict(clause, ev['call'], ev['resp']['err'])
           sig = {'rpc': ev['call']['rpc'], 'clause': clause, 'got': ev['resp']['err'], 'backend': backend, 'via': 'trace'}
           sig.update(replay_mod.env_tags(ev['call']))
           if prop == own or report_all:
